@@ -124,6 +124,9 @@ Bad ==
             /\ proto = SeqSet(Tr.alt[ai].proto) /\ lab = [i \in Nodes |-> Tr.alt[ai].lab[i]]
             /\ \A qi \in 1..Len(Tr.q) : Tr.alt[ai].qres[qi] = Tr.q[qi].res,
        <<"C11", "monotone_rescaling_of_the_metric_changed_prototype_label_or_prediction">>)
+  \cup b(\A qi \in 1..Len(Tr.q) : "fb" \in DOMAIN Tr.q[qi] =>
+            \E t \in ArgMin(QFun(qi)) : SeqSet(Tr.q[qi].fa) = SeqSet(Tr.q[qi].fb) \cup Chain(t, N),
+       <<"C17", "relevance_flags_are_not_previous_flags_plus_the_ancestor_chain_of_a_conqueror">>)
   \cup b(\A i \in Nodes : cost[i] < INF, <<"C15", "sample_not_conquered">>)
   \cup b("tw" \in DOMAIN Tr => /\ cost = [i \in Nodes |-> Tr.tw.cost[i]] /\ pred = [i \in Nodes |-> Tr.tw.pred[i]]
                                 /\ lab = [i \in Nodes |-> Tr.tw.lab[i]] /\ proto = SeqSet(Tr.tw.proto)
